@@ -19,11 +19,37 @@ package main
 //	mref  = @<mailbox rid> (its current internal id) | #<n> (raw internal id)
 //	sref  = @<message rid> (its current internal id) | #<n> (an internal id nobody has)
 //
-// After every U step and every mutating S step the runner waits for the acknowledgement (watchdog),
-// runs a state barrier and issues NOOP in every live observer session. One observation word per
-// step is recorded; the Lean judge `judge-c06-stream` (Driver/DConnUpd.lean) replays the steps on
-// the model of connector_updates.go and compares: acknowledged result, liveness of observers, silence
-// of restating updates, EXISTS counts, and at CHECK the wire view and the index itself.
+//	a mailbox id or a mailbox name `@REC` = the protected recovery mailbox (GLUON-INTERNAL-RECOVERY-MBOX /
+//	"Recovered Messages")
+//
+// After every U step and every mutating S step the runner waits for the acknowledgement, runs a state
+// barrier and issues NOOP in every live observer session. One observation word per step is recorded; the
+// Lean judge `judge-c06-stream` (Driver/DConnUpd.lean) replays the steps on the model of
+// connector_updates.go and compares: acknowledged result, liveness of observers, silence of restating
+// updates, EXISTS counts, and at CHECK the wire view and the index itself.
+//
+// Exactly once: every single acknowledgement is under its own watchdog (-ackwatch, 3s). The observation of a
+// U step starts with `ok` / `err:<class>` (one result, waiter closed afterwards), or
+//
+//	nottaken   the server did not take the update from the connector's channel within the watchdog
+//	noack      taken, but no result within the watchdog (Wait() would block for ever)
+//	ack2(…)    a second result, a waiter left open, Done counted twice (only countable for `U BAD`)
+//	…|panic(…) a server goroutine panicked during the step; a second Done on imap's one-shot waiter is
+//	           `send on closed channel` (error result) / `close of closed channel` (success) in the goroutine
+//	           that applies the updates - that is how "acknowledged twice" shows for the real update types
+//
+// After nottaken / noack / a panic the server is ABANDONED: no further step is sent to it (no barrier, no NOOP,
+// closing it is itself under a watchdog), the judge reports `class ack : cause=update-never-acknowledged |
+// update-acknowledged-twice | update-not-taken | server-panic kind=<kind> target=<what it named>`, the replay
+// is cut down to the connector steps up to and including that update, and the oracle goes on with the next
+// stream. After -watchbudget abandoned servers no further stream is started, so a server that never
+// acknowledges costs a bounded time.
+//
+// Order of the streams: corpus/C06/*.txt, then cuDirected (one stream per update kind walking through every
+// reachable cell of the kind x variant table, every refused update followed by a valid one), then the random
+// streams. The generator sends a valid, effective update right after every refused one (the pipeline goes on)
+// and aims a fifth of its updates at a random cell of the table. Stats: table.<Kind>.<variant>,
+// table.cells-reachable, table.cells-zero (must be 0), judge.pipe.valid-after-refused.<Kind>.
 
 import (
 	"database/sql"
@@ -109,8 +135,19 @@ func cuRID(s string) string {
 	return s
 }
 
-func cuLiteral(rid, lit string) []byte {
-	return SimpleMessage(rid, "content "+lit+" of "+rid)
+// cuNameParts: a mailbox name of a step as the connector gives it (path components); @REC = "Recovered Messages"
+func cuNameParts(n string) []string {
+	if n == "@REC" {
+		return []string{cuRecoveryName}
+	}
+	return strings.Split(n, "/")
+}
+
+// cuLiteral: the literal behind a tag. It depends on the tag only ("two literals are bytes.Equal iff their tags
+// are equal" is what the model assumes): a message whose remote id was changed by MessageIDChanged must still
+// compare equal to an update that restates its tag under the new id.
+func cuLiteral(_ string, lit string) []byte {
+	return SimpleMessage("c06-"+lit, "content "+lit)
 }
 
 type cuMsgSpec struct {
@@ -159,7 +196,16 @@ type cuRunner struct {
 	fatal string
 	uidv  *imap.IncrementalUIDValidityGenerator
 	cov   map[string]int // coverage counters reported by the judge
+	// abandon: why this server is given up ("" = it is not): an update was not taken / not acknowledged
+	// within the watchdog, or a server goroutine panicked. No further step is sent to it.
+	abandon string
 }
+
+// cuAckWatch: the watchdog every single acknowledgement is put under (flag -ackwatch).
+var cuAckWatch = 3 * time.Second
+
+// cuWatchExpired counts the watchdogs that expired in this process (reported in the stats).
+var cuWatchExpired int
 
 // cuLimits: "default" or "mailboxes,messages,uid,uidvalidity"
 var cuLimits = "default"
@@ -176,7 +222,7 @@ func newCuRunner() (*cuRunner, error) {
 	if err != nil {
 		return nil, err
 	}
-	r := &cuRunner{sys: sys, conn: conn, stats: map[string]int{}, watch: 10 * time.Second, uidv: gen, cov: map[string]int{}}
+	r := &cuRunner{sys: sys, conn: conn, stats: map[string]int{}, watch: cuAckWatch, uidv: gen, cov: map[string]int{}}
 	return r, nil
 }
 
@@ -189,7 +235,20 @@ func (r *cuRunner) Close() {
 	if r.sqldb != nil {
 		_ = r.sqldb.Close()
 	}
-	r.sys.Close(true)
+	if r.abandon == "" {
+		r.sys.Close(true)
+		return
+	}
+	// an abandoned server may never finish closing (user.close waits for the update loop, which may sit in an
+	// apply that does not return): give it a few seconds, then leave it behind
+	done := make(chan struct{})
+	go func() { r.sys.Close(true); close(done) }()
+	select {
+	case <-done:
+	case <-time.After(3 * time.Second):
+		r.stats["abandoned-server-did-not-close"]++
+		_ = os.RemoveAll(r.sys.Dir)
+	}
 }
 
 func (r *cuRunner) openDB() (*sql.DB, error) {
@@ -273,7 +332,7 @@ func (r *cuRunner) buildUpdate(f []string) (imap.Update, error) {
 		if err := need(4); err != nil {
 			return nil, err
 		}
-		return imap.NewMailboxCreated(imap.Mailbox{ID: imap.MailboxID(cuRID(f[2])), Name: strings.Split(f[3], "/"), Flags: fl, PermanentFlags: fl, Attributes: imap.NewFlagSet()}), nil
+		return imap.NewMailboxCreated(imap.Mailbox{ID: imap.MailboxID(cuRID(f[2])), Name: cuNameParts(f[3]), Flags: fl, PermanentFlags: fl, Attributes: imap.NewFlagSet()}), nil
 	case "MD":
 		if err := need(3); err != nil {
 			return nil, err
@@ -283,7 +342,7 @@ func (r *cuRunner) buildUpdate(f []string) (imap.Update, error) {
 		if err := need(4); err != nil {
 			return nil, err
 		}
-		return imap.NewMailboxUpdated(imap.MailboxID(cuRID(f[2])), strings.Split(f[3], "/")), nil
+		return imap.NewMailboxUpdated(imap.MailboxID(cuRID(f[2])), cuNameParts(f[3])), nil
 	case "MI":
 		if err := need(4); err != nil {
 			return nil, err
@@ -460,6 +519,9 @@ func (r *cuRunner) Exec(step string) error {
 		if !strings.Contains(o, "panic(") {
 			o += "|panic(" + cuSanitize(p) + ")"
 		}
+		if r.abandon == "" {
+			r.abandon = "panic"
+		}
 	}
 	vlog("  => %s", o)
 	r.out = append(r.out, o)
@@ -492,6 +554,14 @@ func (r *cuRunner) exec1(step string) (string, error) {
 			}
 		}
 		r.stats["ack."+strings.SplitN(word, "(", 2)[0]]++
+		if !res.Taken || !res.Acked {
+			// the watchdog expired: this server is abandoned here (no barrier, no NOOPs: they may hang as well);
+			// give a panic of the applying goroutine a moment to reach the recorder
+			cuWatchExpired++
+			r.abandon = word
+			time.Sleep(50 * time.Millisecond)
+			return r.withDump(word)
+		}
 		return r.withDump(word + r.settle())
 	case f[0] == "X" && f[1] == "CHECK":
 		return r.check()
@@ -822,6 +892,8 @@ type cuGen struct {
 	nMsg     int
 	uSteps   []string
 	lastEcho []string
+	probed   bool     // the step before was the valid update sent after a refused one
+	queue    []string // steps to send next (a re-delivery right after the update)
 }
 
 func newCuGen(r *Rng, nsess int) *cuGen {
@@ -1050,8 +1122,363 @@ func (g *cuGen) echo(run *cuRunner) string {
 	}
 }
 
+// ---- kind x variant table ----------------------------------------------------------------
+
+// cuKinds in the order of user.apply's type switch; the names are those of the judge (kindName).
+var cuKinds = []string{"MailboxCreated", "MailboxDeleted", "MailboxUpdated", "MailboxIDChanged", "MessagesCreated",
+	"MessageMailboxesUpdated", "MessageFlagsUpdated", "MessageIDChanged", "MessageDeleted", "MessageUpdated",
+	"UIDValidityBumped", "Noop", "Unknown"}
+
+// cuVariants of an update: valid (and effective) | names an id the server does not know | names the protected
+// recovery mailbox by id | by name | the same update delivered again right away | restates what the index says.
+var cuVariants = []string{"valid", "unknown-id", "protected-id", "protected-name", "duplicate", "restating"}
+
+// cuReachable: the cells of the table that exist at all through the public connector API (the others are "n/a":
+// MailboxCreated of an unknown id IS the valid case; kinds that name messages only cannot name a mailbox;
+// only MailboxCreated/MailboxUpdated carry a name; UIDValidityBumped never restates; an update of an unknown
+// type is never valid and restates nothing).
+var cuReachable = map[string]string{
+	"MailboxCreated":          "valid protected-id protected-name duplicate restating",
+	"MailboxDeleted":          "valid unknown-id protected-id duplicate restating",
+	"MailboxUpdated":          "valid unknown-id protected-id protected-name duplicate restating",
+	"MailboxIDChanged":        "valid unknown-id protected-id duplicate restating",
+	"MessagesCreated":         "valid unknown-id protected-id duplicate restating",
+	"MessageMailboxesUpdated": "valid unknown-id protected-id duplicate restating",
+	"MessageFlagsUpdated":     "valid unknown-id duplicate restating",
+	"MessageIDChanged":        "valid unknown-id duplicate restating",
+	"MessageDeleted":          "valid unknown-id duplicate restating",
+	"MessageUpdated":          "valid unknown-id protected-id duplicate restating",
+	"UIDValidityBumped":       "valid duplicate",
+	"Noop":                    "valid duplicate restating",
+	"Unknown":                 "duplicate",
+}
+
+func cuCellReachable(kind, variant string) bool {
+	for _, v := range strings.Fields(cuReachable[kind]) {
+		if v == variant {
+			return true
+		}
+	}
+	return false
+}
+
+// cuDirected: one short stream per kind that walks through every reachable variant of that kind; every refused
+// update is followed by a valid one (the pipeline goes on). Internal mailbox ids after the setup: recovery 1,
+// INBOX 2, mb1 3, mb2 4. They run on every check, whatever the seed (after the corpus files).
+var cuDirected = map[string][]string{
+	"MailboxCreated": {"S0 LOGIN", "S0 SELECT mb1",
+		"U MC d1 dbox1", "U MC d1 dbox1", "U NOP", "U MC mb1 mb1",
+		"U MC @REC recbox", "U MC d2 dbox2", "U MC @REC recbox", "U MC @REC recbox", "U MC d3 dbox3",
+		"U MC d4 @REC", "U MC d5 dbox5", "U MC d6 dbox1", "U MC d7 dbox7", "X CHECK"},
+	"MailboxDeleted": {"S0 LOGIN", "S0 SELECT mb1", "U MC d1 dbox1",
+		"U MD mb2", "U MD mb2", "U MD nomb", "U MD @REC", "U MD d1", "U MD @REC", "U MD @REC", "U MC d2 dbox2", "X CHECK"},
+	"MailboxUpdated": {"S0 LOGIN", "S0 SELECT mb1",
+		"U MU mb1 ren1", "U MU mb1 ren1", "U NOP", "U MU mb1 ren1", "U MU nomb ren2", "U MU nomb ren2",
+		"U MU @REC ren3", "U MU mb2 ren4", "U MU @REC ren3", "U MU @REC ren3", "U MU mb2 ren5",
+		"U MU mb2 @REC", "U MU mb2 ren6", "U MU mb2 ren1", "U MU mb2 ren7", "X CHECK"},
+	"MailboxIDChanged": {"S0 LOGIN", "S0 SELECT mb1",
+		"U MI #3 nid1", "U MI #3 nid1", "U NOP", "U MI @nid1 nid1", "U MI #77 nid2", "U MC d1 dbox1",
+		"U MI #1 nid3", "U MI #4 nid4", "U MI #1 nid3", "U MI #1 nid3", "U MC d2 dbox2",
+		"U MI #4 @REC", "U MI #4 nid5", "U MI #4 nid1", "U MI #4 nid6", "X CHECK"},
+	"MessagesCreated": {"S0 LOGIN", "S0 SELECT mb1",
+		"U MSC 0 d1:seen:l1:mb1", "U MSC 0 d1:seen:l1:mb1", "U NOP", "U MSC 1 d1:seen:l1:mb1",
+		"U MSC 0 d2:-:l1:nomb", "U MSC 0 d3:flagged:l1:mb1+mb2", "U MSC 1 d4:-:l2:nomb+mb2", "U MSC 0 d2:-:l1:nomb+mb1", "U MSC 0 d2:-:l1:mb1",
+		"U MSC 0 d5:-:l1:@REC", "U MSC 0 d5:-:l1:@REC", "U MSC 0 d6:-:l1:@REC+mb1/d7:$kw:l1:mb1", "U MSC 0 d8:-:l1:mb2+nomb/d9:-:l1:@REC", "U MSC 0 d8:seen:l1:mb2", "X CHECK"},
+	"MessageMailboxesUpdated": {"S0 LOGIN", "S0 SELECT mb1", "U MSC 0 d1:seen:l1:mb1",
+		"U MMU d1 mb1+mb2 seen,flagged", "U MMU d1 mb1+mb2 seen,flagged", "U NOP", "U MMU d1 mb2+mb1 flagged,seen",
+		"U MMU nomsg mb1 seen", "U MMU d1 mb2 -", "U MMU d1 mb2+nomb -", "U MMU d1 nomb+0 answered",
+		"U MMU d1 @REC seen", "U MMU d1 0+mb1 seen", "U MMU d1 mb1+@REC -", "U MMU d1 mb1+@REC -", "U MMU d1 mb1 draft", "X CHECK"},
+	"MessageFlagsUpdated": {"S0 LOGIN", "S0 SELECT mb1", "U MSC 0 d1:seen:l1:mb1",
+		"U MFU d1 flagged", "U MFU d1 flagged", "U NOP", "U MFU d1 flagged", "U MFU nomsg seen", "U MFU d1 seen,$kw",
+		"U MFU nomsg seen", "U MFU nomsg seen", "U MFU d1 -", "X CHECK"},
+	"MessageIDChanged": {"S0 LOGIN", "S0 SELECT mb1", "U MSC 0 d1:seen:l1:-",
+		"U MSI @d1 e1", "U MSI @e1 e1", "U MSI @e1 e1", "U MSI #1 e2", "U MSI @e1 e3", "U MSI #1 e2", "U MSI #1 e2", "U MFU e3 flagged", "X CHECK"},
+	"MessageDeleted": {"S0 LOGIN", "S0 SELECT mb1", "U MSC 0 d1:seen:l1:mb1/d2:-:l1:mb1+mb2",
+		"U MSD d1", "U MSD d1", "U NOP", "U MSD d1", "U MSD nomsg", "U MSD nomsg", "U MSD d2", "X CHECK"},
+	"MessageUpdated": {"S0 LOGIN", "S0 SELECT mb1", "U MSC 0 d1:seen:l1:mb1",
+		"U MSU 0 d1:flagged:l1:mb1+mb2", "U MSU 0 d1:flagged:l1:mb1+mb2", "U NOP", "U MSU 1 d1:flagged:l1:mb2+mb1",
+		"U MSU 0 d1:flagged:l2:mb1", "U MSU 0 d1:flagged:l2:mb1",
+		"U MSU 0 nomsg:-:l1:mb1", "U MSU 1 d2:-:l1:mb1", "U MSU 0 d1:flagged:l2:nomb", "U MSU 0 d1:seen:l2:mb2",
+		"U MSU 1 d3:-:l1:@REC", "U MSU 1 d3:-:l1:@REC", "U MSU 1 d4:-:l1:mb1+nomb", "U MFU d1 draft", "X CHECK"},
+	"UIDValidityBumped": {"S0 LOGIN", "S0 SELECT mb1", "U UVB", "U UVB", "S0 LOGIN", "S0 SELECT mb2", "U MC d1 dbox1", "U UVB", "X CHECK"},
+	"Noop":              {"S0 LOGIN", "S0 SELECT mb1", "U NOP", "U NOP", "U MC d1 dbox1", "U NOP", "X CHECK"},
+	"Unknown":           {"S0 LOGIN", "S0 SELECT mb1", "U BAD", "U MC d1 dbox1", "U BAD", "U BAD", "U MSC 0 d1:seen:l1:mb1", "X CHECK"},
+}
+
+func (g *cuGen) fresh(prefix string) string {
+	g.nMbox++
+	return fmt.Sprintf("%s%d", prefix, g.nMbox)
+}
+
+// liveMbox / liveMsg: a remote id the index knows right now ("" = none); the generator asks the index itself,
+// so that the variant it aims at is the variant the judge will see.
+func (g *cuGen) liveMbox(run *cuRunner) string {
+	var l []string
+	for _, rid := range g.mboxRids {
+		if rid != "@REC" {
+			if _, ok := run.mboxInternalID(rid); ok {
+				l = append(l, rid)
+			}
+		}
+	}
+	if len(l) == 0 {
+		return ""
+	}
+	return Pick(g.r, l)
+}
+
+func (g *cuGen) liveMsg(run *cuRunner) string {
+	var l []string
+	for _, rid := range append(append([]string{}, g.msgRids...), run.conn.remoteMsgs()...) {
+		if _, ok := run.msgInternalID(rid); ok {
+			l = append(l, rid)
+		}
+	}
+	if len(l) == 0 {
+		return ""
+	}
+	return Pick(g.r, l)
+}
+
+func (g *cuGen) liveMbs(run *cuRunner, extra ...string) string {
+	out := append([]string{}, extra...)
+	for k := g.r.Range(1, 2); k > 0; k-- {
+		if b := g.liveMbox(run); b != "" && !cuContainsStr(out, b) {
+			out = append(out, b)
+		}
+	}
+	if len(out) == 0 {
+		return "-"
+	}
+	for i := len(out) - 1; i > 0; i-- {
+		j := g.r.Intn(i + 1)
+		out[i], out[j] = out[j], out[i]
+	}
+	return strings.Join(out, "+")
+}
+
+func cuContainsStr(l []string, x string) bool {
+	for _, y := range l {
+		if y == x {
+			return true
+		}
+	}
+	return false
+}
+
+// variant: an update of the kind aimed at the variant ("" = cannot be built in this state).
+func (g *cuGen) variant(run *cuRunner, kind, v string) string {
+	r := g.r
+	if v == "duplicate" {
+		// the kinds without arguments: the update, and once more right away
+		if st, ok := map[string]string{"Unknown": "U BAD", "UIDValidityBumped": "U UVB", "Noop": "U NOP"}[kind]; ok {
+			g.queue = append(g.queue, st)
+			return st
+		}
+		for i := len(run.steps) - 1; i >= 0; i-- {
+			if strings.HasPrefix(run.steps[i], "U ") {
+				return run.steps[i]
+			}
+		}
+		return ""
+	}
+	mb, msg := g.liveMbox(run), g.liveMsg(run)
+	newMsg := func(mbs string) string {
+		g.nMsg++
+		rid := fmt.Sprintf("m%d", g.nMsg)
+		g.msgRids = append(g.msgRids, rid)
+		lit, fl := Pick(r, []string{"l1", "l2"}), g.flags()
+		g.msgLit[rid], g.msgMbs[rid], g.msgFlags[rid] = lit, mbs, fl
+		return fmt.Sprintf("%s:%s:%s:%s", rid, fl, lit, mbs)
+	}
+	newName := func() string {
+		n := g.fresh("vbox")
+		g.names = append(g.names, n)
+		return n
+	}
+	newMboxRid := func() string {
+		rid := g.fresh("vb")
+		g.mboxRids = append(g.mboxRids, rid)
+		return rid
+	}
+	switch kind + "." + v {
+	case "MailboxCreated.valid":
+		rid, n := newMboxRid(), newName()
+		g.mboxName[rid] = n
+		return fmt.Sprintf("U MC %s %s", rid, n)
+	case "MailboxCreated.protected-id":
+		return "U MC @REC " + g.fresh("recbox")
+	case "MailboxCreated.protected-name":
+		return "U MC " + g.fresh("vp") + " @REC"
+	case "MailboxCreated.restating":
+		if mb != "" && g.mboxName[mb] != "" {
+			return fmt.Sprintf("U MC %s %s", mb, g.mboxName[mb])
+		}
+	case "MailboxDeleted.valid":
+		if mb != "" && mb != "0" {
+			return "U MD " + mb
+		}
+	case "MailboxDeleted.unknown-id", "MailboxDeleted.restating":
+		return "U MD " + Pick(r, []string{"nomb", "ghost"})
+	case "MailboxDeleted.protected-id":
+		return "U MD @REC"
+	case "MailboxUpdated.valid":
+		if mb != "" && mb != "0" {
+			n := newName()
+			g.mboxName[mb] = n
+			return fmt.Sprintf("U MU %s %s", mb, n)
+		}
+	case "MailboxUpdated.unknown-id":
+		return "U MU nomb " + g.fresh("vn")
+	case "MailboxUpdated.protected-id":
+		return "U MU @REC " + g.fresh("vn")
+	case "MailboxUpdated.protected-name":
+		if mb != "" {
+			return fmt.Sprintf("U MU %s @REC", mb)
+		}
+	case "MailboxUpdated.restating":
+		if mb != "" && g.mboxName[mb] != "" {
+			return fmt.Sprintf("U MU %s %s", mb, g.mboxName[mb])
+		}
+	case "MailboxIDChanged.valid":
+		if mb != "" {
+			rid := newMboxRid()
+			g.mboxName[rid] = g.mboxName[mb]
+			return fmt.Sprintf("U MI @%s %s", mb, rid)
+		}
+	case "MailboxIDChanged.unknown-id":
+		return "U MI " + Pick(r, []string{"#77", "@nomb"}) + " " + g.fresh("vx")
+	case "MailboxIDChanged.protected-id":
+		if mb != "" && r.Chance(1, 2) {
+			return fmt.Sprintf("U MI @%s @REC", mb)
+		}
+		return "U MI " + Pick(r, []string{"#1", "@@REC"}) + " " + g.fresh("vx")
+	case "MailboxIDChanged.restating":
+		if mb != "" {
+			return fmt.Sprintf("U MI @%s %s", mb, mb)
+		}
+	case "MessagesCreated.valid":
+		if mb != "" {
+			return fmt.Sprintf("U MSC %d %s", r.Intn(2), newMsg(g.liveMbs(run, mb)))
+		}
+	case "MessagesCreated.unknown-id":
+		return fmt.Sprintf("U MSC %d %s", r.Intn(2), newMsg(g.liveMbs(run, "nomb")))
+	case "MessagesCreated.protected-id":
+		if r.Chance(1, 2) {
+			return fmt.Sprintf("U MSC %d %s", r.Intn(2), newMsg("@REC"))
+		}
+		return fmt.Sprintf("U MSC %d %s/%s", r.Intn(2), newMsg(g.liveMbs(run, "@REC")), newMsg(g.liveMbs(run)))
+	case "MessagesCreated.restating":
+		if msg != "" && g.msgMbs[msg] != "" {
+			return fmt.Sprintf("U MSC 1 %s:%s:%s:%s", msg, g.flags(), g.msgLit[msg], g.msgMbs[msg])
+		}
+	case "MessageMailboxesUpdated.valid":
+		if msg != "" && mb != "" {
+			mbs, fl := g.liveMbs(run, mb), g.flags()
+			g.msgMbs[msg], g.msgFlags[msg] = mbs, fl
+			return fmt.Sprintf("U MMU %s %s %s", msg, mbs, fl)
+		}
+	case "MessageMailboxesUpdated.unknown-id":
+		if msg != "" && r.Chance(1, 2) {
+			return fmt.Sprintf("U MMU %s %s %s", msg, g.liveMbs(run, "nomb"), g.flags())
+		}
+		return fmt.Sprintf("U MMU %s %s %s", Pick(r, []string{"nomsg", "ghostmsg"}), g.liveMbs(run), g.flags())
+	case "MessageMailboxesUpdated.protected-id":
+		if msg != "" {
+			return fmt.Sprintf("U MMU %s %s %s", msg, g.liveMbs(run, "@REC"), g.flags())
+		}
+		return fmt.Sprintf("U MMU nomsg %s -", g.liveMbs(run, "@REC"))
+	case "MessageMailboxesUpdated.restating":
+		if msg != "" && g.msgMbs[msg] != "" {
+			return fmt.Sprintf("U MMU %s %s %s", msg, g.msgMbs[msg], g.msgFlags[msg])
+		}
+	case "MessageFlagsUpdated.valid":
+		if msg != "" {
+			fl := g.flags()
+			g.msgFlags[msg] = fl
+			return fmt.Sprintf("U MFU %s %s", msg, fl)
+		}
+	case "MessageFlagsUpdated.unknown-id":
+		return fmt.Sprintf("U MFU %s %s", Pick(r, []string{"nomsg", "ghostmsg"}), g.flags())
+	case "MessageFlagsUpdated.restating":
+		if msg != "" && g.msgFlags[msg] != "" {
+			return fmt.Sprintf("U MFU %s %s", msg, g.msgFlags[msg])
+		}
+	case "MessageIDChanged.valid":
+		if msg != "" {
+			g.nMsg++
+			rid := fmt.Sprintf("mi%d", g.nMsg)
+			g.msgRids = append(g.msgRids, rid)
+			g.msgLit[rid], g.msgMbs[rid], g.msgFlags[rid] = g.msgLit[msg], g.msgMbs[msg], g.msgFlags[msg]
+			return fmt.Sprintf("U MSI @%s %s", msg, rid)
+		}
+	case "MessageIDChanged.unknown-id":
+		g.nMsg++
+		return fmt.Sprintf("U MSI %s mi%d", Pick(r, []string{"#1", "@nomsg"}), g.nMsg)
+	case "MessageIDChanged.restating":
+		if msg != "" {
+			return fmt.Sprintf("U MSI @%s %s", msg, msg)
+		}
+	case "MessageDeleted.valid":
+		if msg != "" {
+			return "U MSD " + msg
+		}
+	case "MessageDeleted.unknown-id", "MessageDeleted.restating":
+		return "U MSD " + Pick(r, []string{"nomsg", "ghostmsg"})
+	case "MessageUpdated.valid":
+		if msg != "" && mb != "" && g.msgLit[msg] != "" {
+			lit, mbs, fl := Pick(r, []string{g.msgLit[msg], "l3"}), g.liveMbs(run, mb), g.flags()
+			g.msgLit[msg], g.msgMbs[msg], g.msgFlags[msg] = lit, mbs, fl
+			return fmt.Sprintf("U MSU %d %s:%s:%s:%s", r.Intn(2), msg, fl, lit, mbs)
+		}
+		if mb != "" {
+			return "U MSU 1 " + newMsg(g.liveMbs(run, mb))
+		}
+	case "MessageUpdated.unknown-id":
+		if msg != "" && g.msgLit[msg] != "" && r.Chance(1, 2) {
+			return fmt.Sprintf("U MSU %d %s:%s:%s:%s", r.Intn(2), msg, g.flags(), g.msgLit[msg], g.liveMbs(run, "nomb"))
+		}
+		return fmt.Sprintf("U MSU 0 %s:%s:l1:%s", Pick(r, []string{"nomsg", "ghostmsg"}), g.flags(), g.liveMbs(run))
+	case "MessageUpdated.protected-id":
+		if msg != "" && g.msgLit[msg] != "" && r.Chance(1, 2) {
+			return fmt.Sprintf("U MSU %d %s:%s:%s:%s", r.Intn(2), msg, g.flags(), g.msgLit[msg], g.liveMbs(run, "@REC"))
+		}
+		return fmt.Sprintf("U MSU 1 %s:%s:l1:%s", Pick(r, []string{"nomsg", "ghostmsg"}), g.flags(), g.liveMbs(run, "@REC"))
+	case "MessageUpdated.restating":
+		if msg != "" && g.msgMbs[msg] != "" && g.msgLit[msg] != "" {
+			return fmt.Sprintf("U MSU %d %s:%s:%s:%s", r.Intn(2), msg, g.msgFlags[msg], g.msgLit[msg], g.msgMbs[msg])
+		}
+	case "UIDValidityBumped.valid":
+		return "U UVB"
+	case "Noop.valid", "Noop.restating":
+		return "U NOP"
+	}
+	return ""
+}
+
+// probe: a valid, effective update (sent right after every refused one: the pipeline must go on)
+func (g *cuGen) probe(run *cuRunner) string {
+	for _, k := range []string{Pick(g.r, []string{"MailboxCreated", "MessagesCreated", "MessageFlagsUpdated", "MailboxUpdated", "MessageMailboxesUpdated"}), "MailboxCreated"} {
+		if s := g.variant(run, k, "valid"); s != "" {
+			return s
+		}
+	}
+	return "U NOP"
+}
+
+// cuLastRefused: the last step sent was an update and it was refused (acknowledged with an error)
+func cuLastRefused(run *cuRunner) bool {
+	n := len(run.steps)
+	return n > 0 && n == len(run.out) && strings.HasPrefix(run.steps[n-1], "U ") && strings.HasPrefix(run.out[n-1], "err:")
+}
+
 func (g *cuGen) next(run *cuRunner) string {
 	r := g.r
+	if len(g.queue) > 0 {
+		s := g.queue[0]
+		g.queue = g.queue[1:]
+		return s
+	}
 	for i := 0; i < g.nsess; i++ {
 		o := run.observer(i)
 		if o == nil || !o.alive {
@@ -1065,8 +1492,25 @@ func (g *cuGen) next(run *cuRunner) string {
 			return fmt.Sprintf("S%d SELECT %s", i, n)
 		}
 	}
+	if cuLastRefused(run) && !g.probed {
+		// whatever was refused, and why: the next valid update must be applied and acknowledged
+		g.probed = true
+		s := g.probe(run)
+		g.uSteps = append(g.uSteps, s)
+		return s
+	}
+	g.probed = false
 	c := r.Intn(100)
 	switch {
+	case c < 22:
+		// aim at one cell of the kind x variant table
+		kind := Pick(r, cuKinds)
+		vs := strings.Fields(cuReachable[kind])
+		if s := g.variant(run, kind, Pick(r, vs)); s != "" {
+			g.uSteps = append(g.uSteps, s)
+			return s
+		}
+		fallthrough
 	case c < 50:
 		s := g.update()
 		g.uSteps = append(g.uSteps, s)
@@ -1134,8 +1578,8 @@ func runCuStream(rng *Rng, nsteps int, replay []string) (*cuRunner, error) {
 			if err := run.Exec(st); err != nil {
 				return run, fmt.Errorf("step %q: %w", st, err)
 			}
-			if run.fatal != "" {
-				return run, nil
+			if run.fatal != "" || run.abandon != "" {
+				return run, nil // run.steps = the steps up to and including the one the server failed on
 			}
 		}
 		return run, nil
@@ -1148,13 +1592,16 @@ func runCuStream(rng *Rng, nsteps int, replay []string) (*cuRunner, error) {
 		if err := run.Exec(st); err != nil {
 			return run, err
 		}
+		if run.abandon != "" {
+			return run, nil
+		}
 	}
-	for k := 0; k < nsteps && run.fatal == ""; k++ {
+	for k := 0; k < nsteps && run.fatal == "" && run.abandon == ""; k++ {
 		if err := run.Exec(g.next(run)); err != nil {
 			return run, err
 		}
 	}
-	if run.fatal == "" {
+	if run.fatal == "" && run.abandon == "" {
 		if err := run.Exec("X CHECK"); err != nil {
 			return run, err
 		}
@@ -1249,11 +1696,51 @@ func cuViolationClasses(v string) map[string]string {
 				break
 			}
 		}
+		// an acknowledgement failure is reported once per kind of update
+		if strings.HasPrefix(cls, "ack/") {
+			for _, w := range f {
+				if strings.HasPrefix(w, "kind=") {
+					cls += "/" + strings.TrimPrefix(w, "kind=")
+					break
+				}
+			}
+		}
 		if _, ok := out[cls]; !ok {
 			out[cls] = part
 		}
 	}
 	return out
+}
+
+// cuAckMinimise: the shortest of a few candidate prefixes that still shows the acknowledgement failure of the
+// last step (every failing candidate costs one watchdog, so this is not the general shrinker): the update
+// alone; after the setup; without the client steps; everything up to it.
+func cuAckMinimise(steps []string, cls string) (*cuRunner, string) {
+	if len(steps) == 0 {
+		return nil, ""
+	}
+	last := steps[len(steps)-1]
+	var onlyU []string
+	for _, st := range steps {
+		if strings.HasPrefix(st, "U ") {
+			onlyU = append(onlyU, st)
+		}
+	}
+	cands := [][]string{{last}, append(append([]string{}, cuSetup...), last), onlyU, steps}
+	for _, c := range cands {
+		if len(c) > len(steps) {
+			continue
+		}
+		run, err := runCuStream(nil, 0, c)
+		if run == nil || err != nil {
+			continue
+		}
+		v, _ := cuVerdict(run)
+		if part, ok := cuViolationClasses(v)[cls]; ok {
+			return run, part
+		}
+	}
+	return nil, ""
 }
 
 // cuParseReplay: the steps of a replay file and the limits named in its first line.
@@ -1289,8 +1776,11 @@ func runCuOracle(args []string) int {
 	lim := fs.String("limits", "default", "IMAP limits: default or mailboxes,messages,uid,uidvalidity")
 	limN := fs.Int("limn", 0, "additional streams under small limits")
 	limSmall := fs.String("limsmall", "7,4,9,30", "the small limits")
+	ackWatch := fs.Duration("ackwatch", 3*time.Second, "watchdog of every single acknowledgement")
+	watchBudget := fs.Int("watchbudget", 10, "abandoned servers (expired watchdog, panic) after which no further stream is started")
 	_ = fs.Parse(args)
 	cuLimits = *lim
+	cuAckWatch = *ackWatch
 	res := &OracleResult{Stats: map[string]int{}}
 	report := func(st, obs []string, verdict, note string) {
 		text := "oracle c06updates limits=" + cuLimits + "\n" + strings.Join(st, "\n") + "\n"
@@ -1306,7 +1796,37 @@ func runCuOracle(args []string) int {
 		_ = os.WriteFile(path, []byte(text), 0o644)
 		res.Violations = append(res.Violations, OracleViol{Desc: "C06: " + verdict, Replay: path})
 	}
+	// the kind x variant table (counted by the judge on what the index really held when the update arrived)
+	table := func() {
+		zero := 0
+		cells := 0
+		var holes []string
+		for _, k := range cuKinds {
+			for _, v := range cuVariants {
+				if !cuCellReachable(k, v) {
+					continue
+				}
+				cells++
+				c := res.Stats["judge.t."+k+"."+v]
+				delete(res.Stats, "judge.t."+k+"."+v)
+				res.Stats["table."+k+"."+v] = c
+				if c == 0 {
+					zero++
+					holes = append(holes, k+"."+v)
+				}
+			}
+		}
+		res.Stats["table.cells-reachable"] = cells
+		res.Stats["table.cells-zero"] = zero
+		if zero > 0 {
+			fmt.Fprintln(os.Stderr, "kind x variant cells never exercised:", strings.Join(holes, " "))
+		}
+	}
 	finish := func() int {
+		if *replay == "" {
+			table()
+		}
+		res.Stats["watchdogs-expired"] = cuWatchExpired
 		if *out != "" {
 			writeResult(*out, res)
 		}
@@ -1351,6 +1871,89 @@ func runCuOracle(args []string) int {
 	}
 	rng := NewRng(*seed)
 	reported := map[string]int{}
+	abandoned := 0 // servers given up (expired watchdog, panic): bounds the run, see budgetLeft
+	// judged: a finished (or abandoned) run is judged; every class of failure is reported once, with a replay
+	// that is as short as we can make it within the budget. shrink = the general shrinker may be used.
+	judged := func(run *cuRunner, origin string, shrink bool) {
+		v, nontrivial := cuVerdict(run)
+		for _, key := range sortedKeys(run.cov) {
+			res.Stats["judge."+key] += run.cov[key]
+		}
+		if nontrivial {
+			res.DistinctNontrivial++
+		}
+		if run.abandon != "" {
+			abandoned++
+			res.Stats["streams.abandoned."+strings.SplitN(run.abandon, "(", 2)[0]]++
+			if v == "" {
+				// must not happen: the judge refuses every stream that ends in a missing acknowledgement or a panic
+				v = "violation step " + strconv.Itoa(len(run.steps)) + " class harness : server abandoned (" + run.abandon + ") but the judge saw nothing wrong"
+			}
+		}
+		if v == "" {
+			return
+		}
+		classes := cuViolationClasses(v)
+		var names []string
+		for c := range classes {
+			names = append(names, c)
+		}
+		sort.Strings(names)
+		for _, cls := range names {
+			res.Stats["violation."+cls]++
+			if reported[cls] >= 1 || len(res.Violations) >= 8 {
+				continue
+			}
+			reported[cls]++
+			cls := cls
+			vv, obs, st := classes[cls], run.out, run.steps
+			note := origin
+			switch {
+			case strings.HasPrefix(cls, "ack"):
+				// the failing update is the last step of the run: a few cheap candidates, each under the watchdog
+				before := cuWatchExpired
+				rs, part := cuAckMinimise(run.steps, cls)
+				if rs == nil && (run.abandon == "noack" || run.abandon == "nottaken") {
+					// an expired watchdog that does not show again, not even when the same steps are sent once more
+					// with three times the patience, was a stall of this machine, not the server's doing
+					cuAckWatch *= 3
+					rs, part = cuAckMinimise(run.steps, cls)
+					cuAckWatch /= 3
+					if rs == nil {
+						res.Stats["ack-failure-not-reproduced"]++
+						fmt.Fprintf(os.Stderr, "not reproduced (%s): %s\n", origin, vv)
+						cuWatchExpired = before
+						reported[cls]--
+						continue
+					}
+				}
+				res.Stats["watchdogs-expired.while-minimising"] += cuWatchExpired - before
+				cuWatchExpired = before // the budget counts the streams, not the minimisation
+				if rs != nil {
+					vv, obs, st = part, rs.out, rs.steps
+					note = fmt.Sprintf("the connector steps up to and including the update in question; cut down from %d steps (%s)", len(run.steps), origin)
+				}
+			case shrink:
+				small := shrinkCu(run.steps, func(x string) bool { _, ok := cuViolationClasses(x)[cls]; return ok }, 60)
+				if rs, _ := runCuStream(nil, 0, small); rs != nil {
+					if x, _ := cuVerdict(rs); x != "" {
+						if part, ok := cuViolationClasses(x)[cls]; ok {
+							vv, obs, st = part, rs.out, rs.steps
+						}
+					}
+				}
+				note = fmt.Sprintf("minimised from %d steps (%s)", len(run.steps), origin)
+			}
+			report(st, obs, vv, note)
+		}
+	}
+	budgetLeft := func() bool {
+		if abandoned >= *watchBudget {
+			res.Stats["stopped-early.abandoned-servers-budget"] = 1
+			return false
+		}
+		return true
+	}
 	// past failures and directed scenarios first: every corpus/C06/*.txt replay file
 	if dir := os.Getenv("VERIF_CORPUS"); dir != "" {
 		ents, _ := os.ReadDir(dir)
@@ -1366,6 +1969,9 @@ func runCuOracle(args []string) int {
 			if err != nil || !strings.HasPrefix(string(b), "oracle c06updates") {
 				continue
 			}
+			if !budgetLeft() {
+				break
+			}
 			st, lim := cuParseReplay(string(b))
 			cuLimits = lim
 			run, err := runCuStream(nil, 0, st)
@@ -1379,35 +1985,34 @@ func runCuOracle(args []string) int {
 				report(run.steps, run.out, "corpus "+name+" aborted: "+err.Error(), "corpus file")
 				continue
 			}
-			v, nontrivial := cuVerdict(run)
-			for _, key := range sortedKeys(run.cov) {
-				res.Stats["judge."+key] += run.cov[key]
-			}
-			if nontrivial {
-				res.DistinctNontrivial++
-			}
-			if v == "" {
-				continue
-			}
-			cl := cuViolationClasses(v)
-			var cls []string
-			for c := range cl {
-				cls = append(cls, c)
-			}
-			sort.Strings(cls)
-			for _, c := range cls {
-				res.Stats["violation."+c]++
-				if reported[c] >= 1 {
-					continue
-				}
-				reported[c]++
-				report(run.steps, run.out, cl[c], "corpus file "+name)
-			}
+			judged(run, "corpus file "+name, false)
 		}
 		cuLimits = *lim
 	}
+	// then, for every kind of update, the stream that walks through its variants
+	for _, kind := range cuKinds {
+		if !budgetLeft() {
+			break
+		}
+		run, err := runCuStream(nil, 0, append(append([]string{}, cuSetup...), cuDirected[kind]...))
+		if run == nil {
+			res.Stats["setup-failed"]++
+			continue
+		}
+		res.Evaluations++
+		res.Stats["directed.streams"]++
+		res.Stats["steps"] += len(run.steps)
+		for _, key := range sortedKeys(run.stats) {
+			res.Stats[key] += run.stats[key]
+		}
+		if err != nil {
+			report(run.steps, run.out, "directed stream "+kind+" aborted: "+err.Error(), "directed stream")
+			continue
+		}
+		judged(run, "directed stream "+kind, false)
+	}
 	total := *n + *limN
-	for k := 0; k < total; k++ {
+	for k := 0; k < total && budgetLeft(); k++ {
 		// the last limN streams run under small IMAP limits (limit errors, generator consumed by failed creates)
 		if k >= *n {
 			cuLimits = *limSmall
@@ -1437,41 +2042,7 @@ func runCuOracle(args []string) int {
 			}
 			continue
 		}
-		v, nontrivial := cuVerdict(run)
-		for _, key := range sortedKeys(run.cov) {
-			res.Stats["judge."+key] += run.cov[key]
-		}
-		if nontrivial {
-			res.DistinctNontrivial++
-		}
-		if v == "" {
-			continue
-		}
-		classes := cuViolationClasses(v)
-		var names []string
-		for c := range classes {
-			names = append(names, c)
-		}
-		sort.Strings(names)
-		for _, cls := range names {
-			res.Stats["violation."+cls]++
-			if reported[cls] >= 1 || len(res.Violations) >= 8 {
-				continue
-			}
-			reported[cls]++
-			cls := cls
-			small := shrinkCu(run.steps, func(x string) bool { _, ok := cuViolationClasses(x)[cls]; return ok }, 60)
-			rs, _ := runCuStream(nil, 0, small)
-			vv, obs, st := classes[cls], run.out, run.steps
-			if rs != nil {
-				if x, _ := cuVerdict(rs); x != "" {
-					if part, ok := cuViolationClasses(x)[cls]; ok {
-						vv, obs, st = part, rs.out, rs.steps
-					}
-				}
-			}
-			report(st, obs, vv, fmt.Sprintf("minimised from %d steps (seed %d, stream %d)", len(run.steps), *seed, k))
-		}
+		judged(run, fmt.Sprintf("seed %d, stream %d", *seed, k), true)
 	}
 	return finish()
 }
